@@ -39,7 +39,7 @@ import types
 from typing import Any, Dict, List, Optional, Tuple
 
 from mc.runner import Run, Stats, HarnessError, h64
-from mc.faults import FaultEngine, KILL_BEFORE, KILL_AFTER, FAIL, SHORT, PARTIAL_KILL, fault_tag
+from mc.faults import FaultEngine, KILL_BEFORE, KILL_AFTER, FAIL, FAIL_DROP, SHORT, PARTIAL_KILL, fault_tag
 
 import clematis.io.atomic as atomic_mod
 import clematis.io.log as log_mod
@@ -373,7 +373,7 @@ def execute(entry: str, old_tag: str, new_tag: str, plan: List[Dict[str, Any]], 
     if outcome == "raise" and not fired:
         clauses.append(("raises", "undisturbed write raised %r" % (val,), True))
     if outcome in ("return", "raise") and strays:
-        failing = [(i, f) for i, f in fired if f["kind"] == FAIL]
+        failing = [(i, f) for i, f in fired if f["kind"] in (FAIL, FAIL_DROP)]
         exempt = any(trace[i]["name"] in CLEANUP_CALLS and trace[i]["path"] in strays for i, f in failing)
         # only *failed* writes are constrained by the statement (a failing call that was absorbed counts: the
         # temp of the failed inner write must be gone too); a fault-free write that leaves files is only held to
@@ -412,6 +412,8 @@ def faults_at(ent: Dict[str, Any], errnos: List[str]) -> List[Dict[str, Any]]:
     out: List[Dict[str, Any]] = [{"at": i, "kind": KILL_BEFORE}, {"at": i, "kind": KILL_AFTER}]
     if ent["failable"]:
         out += [{"at": i, "kind": FAIL, "errno": e} for e in errnos]
+    if ent["failable"] and ent["name"] == "fsync":
+        out.append({"at": i, "kind": FAIL_DROP, "errno": "EIO"})   # failed write-back: the data may be gone
     if ent["writer"]:
         for n in short_lengths(ent["len"]):
             out.append({"at": i, "kind": SHORT, "n": n})
